@@ -129,7 +129,11 @@ func RunTLC(o TLCOpts, onJSON func(raw []byte)) (TLCStats, error) {
 	args = append(args, filepath.Join(dir, o.Module+".tla"))
 	timeout := o.Timeout
 	if timeout == 0 {
-		timeout = 30 * time.Minute
+		// wall-clock, and TLC is throttled by the consumers of its output (the real runs): generous
+		timeout = 45 * time.Minute
+		if tier == "thorough" {
+			timeout = 4 * time.Hour
+		}
 	}
 	cmd := exec.Command("java", args...)
 	cmd.Dir = dir
